@@ -159,6 +159,19 @@ func (d *Decoder) decodeValue(value reflect.Value) {
 		return
 	}
 	if m, ok := value.Interface().(Unmarshaler); ok {
+		if o, isObject := value.Interface().(Object); isObject {
+			// object which decodes itself expects that its crc is read already (like in
+			// decodeRegisteredObject), and encodes itself with crc
+			crcCode := d.PopCRC()
+			if d.err != nil {
+				d.err = errors.Wrap(d.err, "read crc")
+				return
+			}
+			if crcCode != o.CRC() {
+				d.err = fmt.Errorf("invalid crc code: %#v, want: %#v", crcCode, o.CRC())
+				return
+			}
+		}
 		err := m.UnmarshalTL(d)
 		if err != nil {
 			d.err = err
@@ -185,7 +198,10 @@ func (d *Decoder) decodeValue(value reflect.Value) {
 		}
 
 	case reflect.Ptr:
-		if o, ok := value.Interface().(Object); ok {
+		if value.Type().Elem().Kind() == reflect.Uint32 {
+			// pointer to enum: enums are encoded as their crc, decoding it like simple value
+			d.decodeValue(value.Elem())
+		} else if o, ok := value.Interface().(Object); ok {
 			d.decodeObject(o, false)
 		} else {
 			d.decodeValue(value.Elem())
@@ -322,6 +338,12 @@ func (d *Decoder) decodeRegisteredObject() Object {
 		}
 
 		return nil
+	}
+
+	if _, isEnum := enumCrcs[crc]; isEnum {
+		// enums are registered as values (not as pointers to structs): value of enum is crc itself, and
+		// there is nothing more to read
+		return reflect.ValueOf(crc).Convert(_typ).Interface().(Object)
 	}
 
 	o := reflect.New(_typ.Elem()).Interface().(Object)
